@@ -1,6 +1,6 @@
 (* extract/Entry_E5d.v — entry points of the reference bookkeeping model (C08). *)
 From Coq Require Import ZArith QArith List String Bool.
-From Pico Require Import Num PyStr Value G_geom G_transform CheckPico Refs Noise Termination Shape Stroke Gradient ObjCache Writeback Entry_E1 Entry_E3 Entry_E5a Entry_E5b Entry_E5c.
+From Pico Require Import Num PyStr Value G_geom G_transform CheckPico Refs Noise Termination Shape Stroke Gradient ObjCache Writeback Defs Entry_E1 Entry_E3 Entry_E5a Entry_E5b Entry_E5c.
 Import ListNotations.
 Local Open Scope string_scope.
 
@@ -90,6 +90,8 @@ Definition entry_E5d (orc : oracle) (name : string) (v : value) : option value :
     Some (VL [VL (map (fun e => VL [VS (fst e); VS (snd e)]) (resolve_chain fields maps)); VQ (inject_Z (Z.of_nat stops))])
   else if name =? "stroke_split_ids" then
     Some (VL (map v_optS (stroke_split_ids (optS_of (arg 0 v)) (getB (arg 1 v)))))
+  else if name =? "add_to_defs" then Some (VL (map VS (add_to_defs (map getS (getL (arg 0 v))) (getS (arg 1 v)))))
+  else if name =? "reconvert" then Some (VL (map VS (reconvert (map getS (getL v)))))
   else if name =? "write_field" then
     Some (v_optS (write_field (map (fun e => (getS (arg 0 e), getS (arg 1 e))) (getL (arg 0 v))) (getS (arg 1 v)) (getS (arg 2 v)) (getS (arg 3 v))))
   else if name =? "read_field" then
